@@ -1,9 +1,65 @@
 import Drive.Json
-/-! Line-protocol handlers: Lookup (stub until the model lands). -/
+import Drive.C14
+import Drive.S3
+import PlaybackModel.Lookup
+/-! Line-protocol handlers for recording lookup on the three cassettes (C10). -/
 open Lean
 namespace Drive.Lookup
-open Drive
+open Drive PlaybackModel.MetaFilter PlaybackModel.S3 PlaybackModel.Lookup
 
-def handlers : List (String × Handler) := []
+def toRec (j : Json) : Except String Rec := do
+  .ok ⟨(← strField j "id"), (← Drive.S3.toMeta j "md")⟩
+
+def errJson : LErr → Json
+  | .typeError => Json.str "TypeError"
+  | .noSuchRecording => Json.str "NoSuchRecording"
+
+def flag (j : Json) (k : String) : Bool :=
+  (optField j k).map (fun v => v == Json.bool true) |>.getD false
+
+/-- {"m":"c10.list","store":"mem"|"file"|"s3","p":prefix,"recs":[{"id","md"}..],"order":[idx..]?,"cat","f","lim",
+     "random","skip":true|false|null,"scalar":bool?,"ch":[..],"rot":k}
+    → {"ids":[..],"fetch":[bool..]} | "TypeError" | "NoSuchRecording".
+    `recs` in save order; for the file store `order` is the `os.listdir` order (indices into `recs`, default identity).
+    `skip` present (true/false): go through `find_matching_recording_ids` with that `skip_incomplete`. -/
+def listH : Handler := fun j => do
+  let recs ← mapM' toRec (← arrField j "recs")
+  let kind ← strField j "store"
+  let store : Store ← match kind with
+    | "mem" => pure (Store.mem recs)
+    | "file" => do
+      let order ← match optField j "order" with
+        | none => pure (List.range recs.length)
+        | some o => mapM' asNat (← asArr o)
+      pure (Store.file (dirOf (order.filterMap (fun i => recs[i]?))))
+    | "s3" => do
+      let c := mkCfg (← strField j "p") false false
+      let foreign ← match optField j "foreign" with
+        | none => pure []
+        | some v => mapM' asStr (← asArr v)
+      let b0 : Bucket := foreign.foldl (fun b k => putObj b k ⟨"foreign", [], 0⟩) []
+      let b := recs.foldl (fun b r => applyMutations b (saveSteps c 0 ⟨r.id, "payload", r.md⟩)) b0
+      pure (Store.s3 c b)
+    | _ => throw s!"unknown store {kind}"
+  let env : Env := ⟨fnmatch, Drive.S3.rotate ((Drive.S3.optNat j "rot").toOption.join.getD 0),
+                   Drive.S3.rotate ((Drive.S3.optNat j "rot").toOption.join.getD 0), Drive.S3.chOf (← Drive.S3.toDraws j)⟩
+  let f ← Drive.S3.toMeta j "f"
+  let lim ← Drive.S3.optNat j "lim"
+  let cat ← strField j "cat"
+  let res := match j.getObjVal? "skip" with
+    | .ok (.bool skip) =>
+      if flag j "scalar" then list env store cat (lookupFilterScalar f skip) lim (flag j "random")
+      else findMatching env store cat f lim (flag j "random") skip
+    | _ => list env store cat f lim (flag j "random")
+  match res with
+  | .ok ids => .ok (jObj [("ids", jArr (ids.map Json.str)), ("fetch", jArr (ids.map (fun i => Json.bool (store.fetchable i))))])
+  | .error e => .ok (errJson e)
+
+/-- {"m":"c10.category","id":s} → `id.split('/')[0]` -/
+def categoryH : Handler := fun j => do
+  .ok (Json.str (category (← strField j "id")))
+
+def handlers : List (String × Handler) :=
+  [("c10.list", listH), ("c10.category", categoryH)]
 
 end Drive.Lookup
